@@ -816,11 +816,16 @@ func (ch *Channel) canSend() bool {
 // Call before calling nextPacketMsg()
 // Goroutine-safe
 func (ch *Channel) isSendPending() bool {
-	if len(ch.sending) == 0 {
+	if ch.sending == nil {
 		if len(ch.sendQueue) == 0 {
 			return false
 		}
 		ch.sending = <-ch.sendQueue
+		if ch.sending == nil {
+			// an empty message is still a message: keep it pending until
+			// nextPacketMsg has sent its (empty) EOF packet.
+			ch.sending = []byte{}
+		}
 	}
 	return true
 }
